@@ -43,14 +43,24 @@ def match_name(pattern: str, name: str) -> bool:
     if name == 'INBOX':
         # a pattern matches INBOX if it matches some case variant; wildcards
         # aside this is a case-insensitive comparison
-        return match(pattern.upper(), 'INBOX') if not any(
+        return match(aupper(pattern), 'INBOX') if not any(
             c.islower() for c in pattern if c not in '*%') \
             else match(_fold_inbox(pattern), 'INBOX')
     return match(pattern, name)
 
 
+def aupper(s: str) -> str:
+    """ASCII-only upper-casing (str.upper() maps a dotless i to I: a name
+    spelled with it is not INBOX)."""
+    return ''.join(chr(ord(c) - 32) if 'a' <= c <= 'z' else c for c in s)
+
+
+def is_inbox(name: str) -> bool:
+    return aupper(name) == 'INBOX'
+
+
 def _fold_inbox(p: str) -> str:
-    return p.upper()
+    return aupper(p)
 
 
 def ancestors(name: str):
@@ -65,10 +75,10 @@ class Namespace:
         self.ident: dict[str, tuple] = {}     # name -> identity tuple
 
     def exists(self, name: str) -> bool:
-        return name.upper() == 'INBOX' or name in self.names
+        return is_inbox(name) or name in self.names
 
     def canon(self, name: str) -> str:
-        return 'INBOX' if name.upper() == 'INBOX' else name
+        return 'INBOX' if is_inbox(name) else name
 
     def all_names(self):
         return {'INBOX'} | set(self.names)
